@@ -154,7 +154,12 @@ Definition cached{S} : net := {tc}.
 Definition lbad{S} := Eval vm_compute in links_bad parsed{S}.
 Definition hbad{S} := Eval vm_compute in hierarchy_bad parsed{S}.
 Definition equiv{S} := Eval vm_compute in net_equiv parsed{S} cached{S}.
-Print lbad{S}. Print hbad{S}. Print equiv{S}.
+Definition pbad{S} := Eval vm_compute in pickle_bad parsed{S}.
+Print lbad{S}. Print hbad{S}. Print equiv{S}. Print pbad{S}.
+(* the pickle placeholder protocol restores every reference of this network (reconnect_inverse) *)
+Theorem pickle_instance{S} : pbad{S} = [] ->
+  setstate parsed{S} (index (elems parsed{S})) (map getstate (elems parsed{S})) = Some (map direct (elems parsed{S})).
+Proof. intros H. apply reconnect_inverse. apply pickle_bad_nil. exact H. Qed.
 (* reflection: every element not named in the printed lists satisfies every linkage / hierarchy rule *)
 Theorem links_instance{S} : ReciprocalExcept parsed{S} lbad{S}.
 Proof. apply links_bad_sound. vm_cast_no_check (eq_refl lbad{S}). Qed.
@@ -173,7 +178,7 @@ Qed.
 
 HEADER = """(* generated by harness/c20.py from the networks Scenic built - do not edit *)
 From Coq Require Import List Bool PArith NArith ZArith.
-From Scenic Require Import C20.Network C20.NetworkProofs.
+From Scenic Require Import C20.Network C20.NetworkProofs C20.Pickle C20.MoreProofs.
 Import ListNotations.
 Open Scope positive_scope.
 """
@@ -186,8 +191,10 @@ def parse_printed(out):
         name, body = m.group(1), m.group(2)
         if name.startswith("equiv"):
             res[name] = body.strip() == "true"
-        elif name.startswith("ptbad"):
+        elif name.startswith(("ptbad", "lcbad", "covern")):
             res[name] = [int(x) for x in re.findall(r"(\d+)%N", body)]
+        elif name.startswith("pbad"):
+            res[name] = [int(x) for x in re.findall(r"\d+", body)]
         else:
             res[name] = [(int(a), int(b)) for a, b in re.findall(r"\(\s*(\d+)\s*,\s*(\d+)", body)]
     return res
